@@ -274,3 +274,16 @@ def render_jobs(Job, cfg=CFG_NDEBUG, tier="quick"):
 
 def c01_extra(Job, tier):
     return render_jobs(Job)
+
+
+# ---- C02 extra: the info line ------------------------------------------------------------------------------------
+INFO_GROUP = ["sector_count", "byte_to_ascii7", "CatalogEntry_metadata_byte", "CatalogEntry_metadata_word", "CatalogEntry_load_address",
+              "CatalogEntry_exec_address", "CatalogEntry_file_length", "CatalogEntry_start_sector", "CatalogEntry_directory",
+              "CatalogEntry_is_locked", "CatalogEntry_name", "sign_extend", "info_line"]
+
+
+def c02_extra(Job, tier):
+    cfg = CFG_NDEBUG
+    return [Job("D_info_line_%s" % cfg[0], "harness/dfs_info.c", "h_info_line", enforce=["info_line"], defines=list(cfg[1]),
+                extract=ext(INFO_GROUP), tier="quick", solver="portfolio",
+                cbmc=["--unwindset", "CatalogEntry_name.0:8", "--unwinding-assertions"])]
